@@ -7,7 +7,7 @@ THEOREMS = ["Props.C15." + t for t in [
     "describe_faithful_partial", "describe_loses_include", "describe_loses_namespace", "annotations_keep_all_values",
     "const_value_faithful", "type_expr_faithful",
     "welltyped_check_sound", "descriptor_roundtrip",
-    "register_closed", "lookup_finds_partial", "lookup_collision_witness", "field_lookup_finds",
+    "register_closed", "lookup_finds_partial", "typedesc_and_method_lookup_finds", "lookup_collision_witness", "field_lookup_finds",
     "const_type_unregistered", "gotype_bijection_partial", "gotype_alias_witness"]]
 
 
